@@ -40,6 +40,7 @@ type wr struct {
 }
 
 type scenario struct {
+	Coalesce bool   `json:"coalesce"`
 	ID       string `json:"id"`
 	Kind     string `json:"kind"`
 	Targets  []int  `json:"targets"`
@@ -230,7 +231,28 @@ func runSession(s *scenario) {
 	if err != nil {
 		panic(err)
 	}
-	l := wire.NewLink(true, 0)
+	// Coalesce: the bridge's application writes before the client has seen the response - the handshake response, the
+	// inline PRNG-seed frame and the first data frame(s) reach the client in ONE segment
+	l := wire.NewLink(!s.Coalesce, 0)
+	stopPump := make(chan struct{})
+	defer close(stopPump)
+	pump := func(from, to *wire.Conn) {
+		for {
+			select {
+			case <-stopPump:
+				return
+			default:
+			}
+			if from.WaitOut(1, 2*time.Millisecond) == nil {
+				if b := from.Take(); len(b) > 0 {
+					to.Deliver(b)
+				}
+			}
+		}
+	}
+	if s.Coalesce {
+		go pump(l.A, l.B)
+	}
 	srv, cli := &endpoint{raw: l.B, cid: 1}, &endpoint{raw: l.A, cid: 2}
 	l.Hook = func(c *wire.Conn, what string, data []byte) {
 		if what != "write" || len(data) == 0 {
@@ -253,20 +275,37 @@ func runSession(s *scenario) {
 		c, err := sf.WrapConn(l.B)
 		sch <- res{c, err}
 	}()
-	cc, err := cf.Dial("tcp", "192.0.2.1:443", func(string, string) (net.Conn, error) { return l.A, nil }, cargs)
-	if err != nil {
-		w.Emit(vt.Ev{"event": "DriverDead", "why": "dial: " + err.Error()})
-		return
-	}
+	cch := make(chan res, 1)
+	go func() {
+		c, err := cf.Dial("tcp", "192.0.2.1:443", func(string, string) (net.Conn, error) { return l.A, nil }, cargs)
+		cch <- res{c, err}
+	}()
 	sr := <-sch
 	if sr.err != nil {
 		w.Emit(vt.Ev{"event": "DriverDead", "why": "wrap: " + sr.err.Error()})
 		return
 	}
-	srv.conn, cli.conn = sr.c, cc
+	srv.conn = sr.c
 	stab, smode, _ := obfs4.VerifLenTable(srv.conn)
-	ctab, cmode, _ := obfs4.VerifLenTable(cli.conn)
 	w.Emit(vt.Ev{"event": "Conn", "cid": 1, "side": "s", "mode": smode, "table": stab})
+	if s.Coalesce {
+		// the bridge speaks first; only then is everything it has written so far released, in one piece
+		for _, n := range []int{100, 1427} {
+			if !doWrite(srv, n) {
+				return
+			}
+		}
+		l.A.Deliver(l.B.Take())
+		go pump(l.B, l.A)
+	}
+	cr := <-cch
+	if cr.err != nil {
+		w.Emit(vt.Ev{"event": "DriverDead", "why": "dial: " + cr.err.Error()})
+		return
+	}
+	cc := cr.c
+	cli.conn = cc
+	ctab, cmode, _ := obfs4.VerifLenTable(cli.conn)
 	w.Emit(vt.Ev{"event": "Conn", "cid": 2, "side": "c", "mode": cmode, "table": ctab})
 	// readers drain application data so that nothing ever blocks
 	for _, ep := range []*endpoint{srv, cli} {
@@ -280,6 +319,12 @@ func runSession(s *scenario) {
 		}(ep)
 	}
 	adopted := false
+	if s.Coalesce {
+		// the seed frame was in the segment that completed the handshake: the client holds the bridge's table NOW, whatever
+		// frames followed the seed frame in that segment
+		w.Emit(vt.Ev{"event": "Adopt", "cid": 2, "equal": equalInts(ctab, stab)})
+		adopted = true
+	}
 	for _, x := range s.Writes {
 		ep := srv
 		if x.Side == "c" {
